@@ -218,8 +218,11 @@ def gen_world(lib: Lib, rng: random.Random, knobs: dict | None = None) -> World:
     # files[0] is the main file; macro files get directories and names
     paths = [posixpath.join(w.main)]
     used = set()
+    alias_dirs = ["/opt/shared/deep/er", "/opt/shared/deep/er", "/opt/shared/deep", "/opt/shared"]
     for i in range(1, nfiles):
-        d = rng.choice(DIRS)
+        # worlds with symlink aliases put most files behind the aliases (that is where physical and textual path
+        # handling differ)
+        d = rng.choice(alias_dirs) if (k["symlinks"] and rng.random() < 0.7) else rng.choice(DIRS)
         nm = f"m{i}_{rng.choice(['x', 'y', 'lib'])}.exps"
         p = posixpath.join(d, nm)
         while p in used:
